@@ -461,11 +461,29 @@ static void keyfile_free(void *p, size_t n) {
         break;
       }
 }
+// Blocks released by libc itself on the library's behalf (getline/stdio growing or releasing a buffer) never pass through the link-time
+// wrappers; AddressSanitizer's free hook sees every release, so the same search runs there while a key file is being read.
+#if defined(__has_feature)
+#if __has_feature(address_sanitizer)
+#define C20_HAVE_ASAN_HOOK 1
+#endif
+#endif
+static bool g_keys_watch = false;
+#ifdef C20_HAVE_ASAN_HOOK
+extern "C" size_t __sanitizer_get_allocated_size(const volatile void *);
+extern "C" void __sanitizer_free_hook(const volatile void *p) {
+  static bool inside = false;
+  if (!g_keys_watch || inside || !p) return;
+  inside = true;
+  keyfile_free((void *)p, __sanitizer_get_allocated_size(p));
+  inside = false;
+}
+#endif
 static Outcome run_keys(const Case &c) {
   Outcome o;
   if (c.empty()) return o;
   auto A = [&](size_t i) -> int64_t { return i < c[0].a.size() ? c[0].a[i] : 0; };
-  int mode = (int)(((A(0) % 8) + 8) % 8);
+  int mode = (int)(((A(0) % 9) + 9) % 9);
   size_t slen = (size_t)std::min<int64_t>(std::max<int64_t>(A(1), 8), 900);
   std::string secret = prbytes((uint64_t)A(2), slen);
   for (auto &ch : secret) ch = "ABCDEFGHIJKLMNOPQRSTUVWXYZabcdefghijklmnopqrstuvwxyz0123456789+/"[(unsigned char)ch % 64];
@@ -482,6 +500,7 @@ static Outcome run_keys(const Case &c) {
   case 4: break;                                                     // missing id
   case 5: f += "ACCESS_KEY_ID=" + id; break;                         // missing EOL at the end
   case 6: if (!id_first) f += "ACCESS_KEY_ID=" + id + "\n"; break;   // valid file (success path)
+  case 8: f += "SOME_VERY_LONG_LINE_WITHOUT_MEANING=" + std::string(150 + (size_t)(A(2) & 511), 'x') + "\nJUNK LINE\n"; break;  // a later line far longer than the secret line (a line buffer has to grow), then a failure
   case 7: f += "OTHER_KEY=value\nACCESS_KEY_ID=" + id + "\n"; break;  // a valid file, but reading it fails (EIO) after the secret line has been delivered
   }
   int fd = memfd_create("keys", 0);
@@ -502,7 +521,9 @@ static Outcome run_keys(const Case &c) {
   g_fgets_fail_at = mode == 7 ? (id_first ? 2 : 1) + (int)((A(2) >> 3) & 1) : -1;  // right after the secret line, or one line later
   {
     aw::Arm a;
+    g_keys_watch = true;
     rc = shim_aws_readkeys(path, &kid, &ksec);
+    g_keys_watch = false;
   }
   g_fgets_fail_at = -1;
   g_stream_error = false;
@@ -534,7 +555,7 @@ static Outcome run_keys(const Case &c) {
 static rc::Gen<Case> gen_keys(int) {
   return rc::gen::exec([]() {
     Case c;
-    c.push_back(Op("keys", {*range<int>(0, 7), *rc::gen::weightedOneOf<int64_t>({{3, range<int64_t>(8, 60)}, {1, range<int64_t>(60, 900)}}), *rc::gen::arbitrary<int>(), *range<int>(0, 1)}));
+    c.push_back(Op("keys", {*range<int>(0, 8), *rc::gen::weightedOneOf<int64_t>({{3, range<int64_t>(8, 60)}, {1, range<int64_t>(60, 900)}}), *rc::gen::arbitrary<int>(), *range<int>(0, 1)}));
     return c;
   });
 }
